@@ -36,10 +36,10 @@ type replica struct {
 
 type catchpointObs struct {
 	NopObserver
-	reps   []*replica
-	labels map[basics.Round]string // primary's labels
+	reps     []*replica
+	labels   map[basics.Round]string // primary's labels
 	origTrie merkletrie.MemoryConfig
-	started bool
+	started  bool
 	compared int
 }
 
